@@ -479,6 +479,33 @@ func (r *Runner) doRestart(op *Op) {
 		// descriptors and mappings vanish, the page cache (and so the files) keeps every store. The history then
 		// continues on the recovered database - every acknowledged mutation must be there (C03's promise for a
 		// process crash), so the reference model carries on unchanged and the property's own oracles keep judging.
+		if len(op.Sub) > 0 {
+			// ... and it dies inside a batch: operations staged (pieces larger than the file-size limit already flushed
+			// and indexed), Commit never reached. Nothing of the batch may be visible afterwards, and what it left in
+			// the log is garbage that the recomputed counters must charge as reclaimable.
+			db := r.DB
+			p, _ := protect(func() {
+				b := db.NewBatch(kv.BatchOptions{})
+				for si := range op.Sub {
+					switch w := &op.Sub[si]; w.K {
+					case "bput":
+						_ = b.Put(append([]byte(nil), w.Key...), w.Val.Bytes())
+					case "bdel":
+						_ = b.Delete(append([]byte(nil), w.Key...))
+					}
+				}
+			})
+			if p != "" {
+				r.judging = false
+				r.fail("kill-batch", "", "staging the batch that the kill interrupts: %s", clip(p, 200))
+				return
+			}
+			r.inc("fault_process_killed_inside_a_batch")
+			if r.C.Prop == "C17" {
+				r.FS.Mark(-6)
+				r.trackLimits() // what the batch flushed was written under the configuration that is about to change
+			}
+		}
 		r.FS.Mark(-5)
 		r.FS.CloseAll()
 		r.DB = nil
